@@ -50,12 +50,8 @@ OBS_RE = re.compile(r'<<(\d+), "(\w+)", "([^"]*)", (-?\d+)>>')
 
 
 def load_extra_findings(c):
-    p = os.path.join(ROOT, "proposed", "C11-known.json")
-    if os.path.exists(p):
-        have = {f.get("id") for f in c.findings}
-        for f in json.load(open(p)):
-            if f.get("id") not in have:
-                c.findings.append(f)
+    """known findings come from /verif/KNOWN_FINDINGS.json only (vlib)"""
+    return
 
 
 def parse_hist(line):
